@@ -368,7 +368,7 @@ func runC17(c *core.Ctx) {
 			vr.Min = ver
 		}
 		b.Versions[api] = vr
-		tr := &kafka.Transport{Dial: env.Net.Dialer("tr"), ClientID: "verif-tr", MetadataTTL: time.Hour, IdleTimeout: time.Second, DialTimeout: time.Second}
+		tr := &kafka.Transport{Dial: env.Net.Dialer("tr"), ClientID: "verif-tr", MetadataTTL: 1500 * time.Millisecond, IdleTimeout: time.Second, DialTimeout: time.Second}
 		return env, tr
 	}
 	roundTrip := func(tr *kafka.Transport, req protocol.Message, timeout time.Duration) (protocol.Message, error) {
@@ -486,8 +486,9 @@ func runC17(c *core.Ctx) {
 			return
 		}
 		// the same call again must succeed, on another connection
-		// (a silent connection attempt - the cut can hit the ApiVersions exchange of the pool's first
-		// connection - is only given up after DialTimeout, 1 s here: the retry gets several times that)
+		// (a connection that went silent is only given up after the library's own deadlines: DialTimeout
+		// for the ApiVersions exchange of a new connection, MetadataTTL for the pool's metadata request -
+		// 1 s and 1.5 s here; the retry gets several times that)
 		m2, err2 := roundTrip(tr, op.Req(), 8*time.Second)
 		if err2 != nil {
 			k.Viol("c17:no-recovery:transport:"+key, fmt.Sprintf("after a cut response (byte %d, %s) the next RoundTrip(%s) failed too: %v", cs.k, cs.mode, op.Name, err2), nil)
